@@ -118,17 +118,28 @@ def readout_record(ro) -> dict:
             valid2 = bool(ro.is_valid)
         except Exception as ex:  # noqa: BLE001
             valid2, verr = False, verr or type(ex).__name__
-    return {"o": list(o), "valid": valid, "valid2": valid2, "vraised": verr, "payload": list(payload or b""), "raised": err[0] if err else ""}
+    return {"o": list(o), "valid": valid, "valid2": valid2, "vraised": verr, "payload": list(payload or b""), "raised": err[0] if err else "",
+            "stable": True}
 
 
 def record_run(chunks: list[bytes], reader=None) -> dict:
     from han.dlde import ModeDReader
     r = reader or ModeDReader()
+    by = ModeDReader()       # a second reader used between the calls: readers are independent objects
     calls = []
-    for ch in chunks:
+    kept = []
+    lists = []
+    for n, ch in enumerate(chunks):
         raised, outs = "", []
         try:
-            outs = [readout_record(x) for x in r.read(ch)]
+            by.read((b"/XYZ5other\r\n", b"1-0:1.8.0(1*kWh)\r\n", b"!\r\n", b"/", b"abc", b"!12", b"\n")[n % 7])
+        except Exception:  # noqa: BLE001
+            pass
+        try:
+            res = r.read(ch)
+            outs = [readout_record(x) for x in res]
+            kept += list(zip(res, outs))
+            lists.append((res, outs))
         except Exception as ex:  # noqa: BLE001
             raised = type(ex).__name__
         try:
@@ -136,6 +147,8 @@ def record_run(chunks: list[bytes], reader=None) -> dict:
         except Exception:  # noqa: BLE001
             hunt = False
         calls.append({"chunk": list(ch), "raised": raised, "hunt": hunt, "readouts": outs})
+    from .drv_hdlc import recheck_stable
+    recheck_stable(kept, lists)
     return {"calls": calls}
 
 
@@ -152,8 +165,19 @@ def direct_trace(octets: bytes, origin: str) -> dict | None:
         ro = DataReadout(octets)
     except Exception:  # noqa: BLE001
         return None  # the constructor's documented refusal (no '/' or no '!'): not a readout
+    from .core import set_logging
+    set_logging(0, debug=False)
     rec = readout_record(ro)
     recs = [rec]
+    # the same octets again with every logger at DEBUG: the answers must not depend on the logging configuration
+    set_logging(0, debug=True)
+    try:
+        rec3 = readout_record(DataReadout(octets))
+        if (rec3["valid"], rec3["valid2"], rec3["raised"], rec3["vraised"]) != (rec["valid"], rec["valid2"], rec["raised"], rec["vraised"]):
+            recs.append(rec3)
+    except Exception:  # noqa: BLE001
+        pass
+    set_logging(0, debug=False)
     if rec["valid2"] != rec["valid"]:          # a second report of the same readout that differs: judge both
         r2 = dict(rec)
         r2["valid"] = rec["valid2"]
@@ -185,7 +209,7 @@ def clean_plan(rng: random.Random, n: int, tail: bool, nlines=None) -> list[dict
 
 
 P1_NOISE = ["random", "ascii", "slash_nolf", "ident_noend", "partial_readout", "bang_lines", "highbytes", "ident_bang",
-            "end_nonhex", "near_guard", "over_guard", "slash_long_line", "guard_boundary"]
+            "end_nonhex", "near_guard", "over_guard", "slash_long_line", "guard_boundary", "ident_then_high"]
 
 
 def noise_prefix(rng: random.Random, kind: str) -> bytes:
@@ -217,6 +241,9 @@ def noise_prefix(rng: random.Random, kind: str) -> bytes:
         body = b"/ABC5id\r\n" + b"0-0:96.1.0(12345678)\r\n" * 371
         pad = rng.choice([0, 1, 2, 3, 4] * 3 + list(range(30)))
         return body + b"1-0:1.8.0(" + b"0" * pad + b"1*kWh)\r\n" + rng.choice([b"!\r\n", b"!ABCD\r\n", b"!" + b"0" * 12 + b"\r\n", b""])
+    if kind == "ident_then_high":     # a readout starts properly, then a data line with octets >= 0x80; no end line of its own
+        return rand_ident(rng) + b"\r\n1-0:1.8.0(" + bytes(rng.choice([0x80, 0xE6, 0xFF, 0xC3, 0xA5]) for _ in range(rng.randint(1, 6))) + b"*kWh)\r\n" + \
+            rng.choice([b"", b"0-0:96.1.0(1)\r\n"])
     if kind == "slash_long_line":
         return b"/" + b"x" * rng.choice([8180, 8191, 8192, 9000, 20000])
     return b"x"
@@ -246,6 +273,8 @@ def chunkings_p1(rng: random.Random, data: bytes, plan, k: int) -> list[list[int
 
 
 def _mk_clean(args):
+    from .core import set_logging
+    set_logging(args)
     seed, n, big = args
     rng = random.Random(seed)
     out = []
@@ -254,10 +283,18 @@ def _mk_clean(args):
             plan = clean_plan(rng, rng.randint(3, 12), rng.random() < 0.3, nlines=rng.choice([120, 180, 250]))
         elif big and k % 4 == 0:
             plan = clean_plan(rng, rng.randint(30, 120), rng.random() < 0.5, nlines=rng.choice([2, 5, 20]))
+        elif k % 4 == 3:        # a single data line of 1-2.5 KiB (a text message as hex digits), readout still well below 8 KiB
+            plan = clean_plan(rng, rng.randint(2, 5), rng.random() < 0.3, nlines=rng.choice([1, 3]))
+            for it in plan:
+                if it["k"] == "readout" and rng.random() < 0.7:
+                    it["lines"].insert(rng.randint(0, len(it["lines"])), list(b"0-0:96.13.0(" + bytes(rng.choice(b"0123456789ABCDEF") for _ in range(rng.choice([1040, 1100, 1500, 2048, 2400]))) + b")"))
         else:
             plan = clean_plan(rng, rng.randint(1, 10), rng.random() < 0.4)
         data = plan_wire(plan)
         cuts = chunkings_p1(rng, data, plan, 2 if len(data) > 20000 else 4)
+        if k % 4 == 3:
+            sz = rng.choice([32, 256, 1500])
+            cuts.append([sz] * (len(data) // sz) + ([len(data) % sz] if len(data) % sz else []))
         if len(data) > 3000:
             cuts = [c for c in cuts if len(c) <= 4000]
         out.append(make_trace(data, cuts, mode="clean", plan=plan, origin="gen:clean", nodrift=len(data) > 30000))
@@ -265,6 +302,8 @@ def _mk_clean(args):
 
 
 def _mk_resync(args):
+    from .core import set_logging
+    set_logging(args)
     seed, n = args
     rng = random.Random(seed)
     out = []
@@ -339,7 +378,9 @@ def canaries_for(traces, rng: random.Random) -> list[dict]:
             if c["readouts"]:
                 return c["readouts"][0]
 
-    pools = {"flip_valid": [t for t in withr if t["mode"] in ("clean", "direct") and first(t)["valid"]],
+    # sources are chosen where the CONTRACT fixes the answer (planned clean readouts must be valid), not where the implementation said so
+    pools = {"flip_valid": [t for t in withr if t["mode"] == "clean" and first(t)["valid"]] or
+                           [t for t in withr if t["mode"] == "direct" and first(t)["valid"]],
              "payload_octet": [t for t in withr if first(t)["valid"] and first(t)["payload"]],
              "drop_readout": [t for t in withr if t["mode"] == "clean"],
              "octet": [t for t in withr if t["mode"] == "clean"]}
